@@ -1,12 +1,13 @@
 #!/usr/bin/env python3
 """C11: name the regenerated nondeterminism sites that are not on the reviewed allow-list."""
-import re, subprocess
-src = open("/verif/lean/Irismod/Spec/C11.lean").read()
+import re, os
+R = os.path.dirname(os.path.dirname(os.path.abspath(__file__)))
+src = open(os.path.join(R, "lean/Irismod/Spec/C11.lean")).read()
 allow = set(re.findall(r'⟨"([^"]*)", "([^"]*)", "([^"]*)", "([^"]*)",', src))
 m = re.search(r"def wiringFields : List String := \[(.*?)\]\n", src, flags=re.S)
 wiring = set(re.findall(r'"([^"]*)"', m.group(1)))
 found = False
-for l in open("/verif/work/nondet_sites.txt"):
+for l in open(os.path.join(R, "work/nondet_sites.txt")):
     f, fn, kind, callee, _ = l.rstrip("\n").split("\t")
     ok = (callee in wiring) if kind == "keeper-field" else ((f, fn, kind, callee) in allow)
     if not ok:
